@@ -291,6 +291,7 @@ type replayCase struct {
 	ID      string                 `json:"id"`
 	Harness string                 `json:"harness"`
 	Vars    map[string]interface{} `json:"vars"`
+	Params  map[string]int         `json:"params,omitempty"`
 }
 
 type replayOutcome struct {
@@ -388,6 +389,7 @@ func runHarness(verifDir string, spec HarnessSpec, seed int, thorough bool) (*Ha
 	defer solver.Close()
 	e := newEngine(prog, pkgs, spec, solver)
 	e.harness = spec.Name
+	dbgEngine = e
 	if thorough {
 		e.smtDir = filepath.Join(verifDir, "out", "smt")
 	}
@@ -424,13 +426,13 @@ func runHarness(verifDir string, spec HarnessSpec, seed int, thorough bool) (*Ha
 	var cases []replayCase
 	for i, ob := range e.Obls {
 		if ob.Result == "violated" {
-			cases = append(cases, replayCase{ID: fmt.Sprintf("ob%d", i), Harness: spec.Name, Vars: ob.Model})
+			cases = append(cases, replayCase{ID: fmt.Sprintf("ob%d", i), Harness: spec.Name, Vars: ob.Model, Params: spec.Params})
 		}
 	}
 	for _, id := range e.CoverOrder {
 		cr := e.Covers[id]
 		if cr.Reached {
-			cases = append(cases, replayCase{ID: "cover:" + id, Harness: spec.Name, Vars: cr.Model})
+			cases = append(cases, replayCase{ID: "cover:" + id, Harness: spec.Name, Vars: cr.Model, Params: spec.Params})
 		}
 	}
 	if len(cases) > 0 {
